@@ -238,6 +238,9 @@ func hostile(c *gsim.Cluster, sf *schedFile, rng *rand.Rand, n int, emit func(*g
 				corpus = append(corpus, c.SlotBytes(slot))
 			}
 		}
+		if i%200 == 17 {
+			emit(c.StalledStream(pick(nodes), pick(nodes)))
+		}
 		o := pick(nodes)
 		var b []byte
 		var note string
